@@ -263,10 +263,12 @@ Ban(t, s, kind, x) ==
   /\ nops' = [nops EXCEPT ![t] = @ + 1]
   /\ IF BanRefused(s, kind, x)
        THEN /\ UNCHANGED <<bannedT, bannedF>>
-            /\ Done(t, [op |-> "Ban", s |-> s, n |-> x, res |-> 0, how |-> kind, ver |-> 0])
+            /\ Done(t, [op |-> "Ban", s |-> s, n |-> x, res |-> 0, how |-> kind, ver |-> 0,
+                        bt |-> bannedT[s], bf |-> bannedF[s], fr |-> frozen[s]])
        ELSE /\ bannedT' = IF kind = "tag" THEN [bannedT EXCEPT ![s] = @ \cup {x}] ELSE bannedT
             /\ bannedF' = IF kind = "filter" THEN [bannedF EXCEPT ![s] = @ \cup {x}] ELSE bannedF
-            /\ Done(t, [op |-> "Ban", s |-> s, n |-> x, res |-> 1, how |-> kind, ver |-> 0])
+            /\ Done(t, [op |-> "Ban", s |-> s, n |-> x, res |-> 1, how |-> kind, ver |-> 0,
+                        bt |-> bannedT'[s], bf |-> bannedF'[s], fr |-> frozen[s]])
   /\ UNCHANGED <<cache, debug, mutex, file, frozen, pc, cur,
                  nextId, tplVer, tplEpoch, epoch, loads, fetches, nenv>>
 
@@ -279,7 +281,8 @@ Compile(t, s, usesT, usesF, how) ==
   /\ nops' = [nops EXCEPT ![t] = @ + 1]
   /\ frozen' = [frozen EXCEPT ![s] = TRUE]
   /\ Done(t, [op |-> "Compile", s |-> s, n |-> <<usesT, usesF>>, how |-> how,
-              res |-> IF CompileOK(s, usesT, usesF) THEN 1 ELSE 0, ver |-> 0])
+              res |-> IF CompileOK(s, usesT, usesF) THEN 1 ELSE 0, ver |-> 0,
+              bt |-> bannedT[s], bf |-> bannedF[s], fr |-> TRUE])
   /\ UNCHANGED <<cache, debug, mutex, file, bannedT, bannedF, pc, cur,
                  nextId, tplVer, tplEpoch, epoch, loads, fetches, nenv>>
 
@@ -294,9 +297,10 @@ NextCache ==
 
 NextBan ==
   \/ \E t \in Threads, s \in Sets, k \in {"tag", "filter"}, x \in Vocab \cup {"unknown_name"} : Ban(t, s, k, x)
-  \/ \E t \in Threads, s \in Sets, uT \in SUBSET Vocab, uF \in SUBSET Vocab, how \in {"string", "file", "render"} :
+  \* `how` (FromString / FromFile / Render*) does not influence the model; the harness rotates through the entry points
+  \/ \E t \in Threads, s \in Sets, uT \in SUBSET Vocab, uF \in SUBSET Vocab :
         /\ Cardinality(uT) + Cardinality(uF) <= 1
-        /\ Compile(t, s, uT, uF, how)
+        /\ Compile(t, s, uT, uF, "any")
 
 Next == NextCache \/ NextBan
 
@@ -361,6 +365,20 @@ BanVerdictStable ==
   \A i, j \in 1..Len(hist) :
     (hist[i].op = "Compile" /\ hist[j].op = "Compile" /\ hist[i].s = hist[j].s /\ hist[i].n = hist[j].n)
       => hist[i].res = hist[j].res
+
+\* a successful ban is recorded, a refused one changes nothing (read off the history's post-states)
+BanEffect ==
+  \A i \in 1..Len(hist) :
+    hist[i].op = "Ban" =>
+      /\ (hist[i].res = 1) => (IF hist[i].how = "tag" THEN hist[i].n \in hist[i].bt ELSE hist[i].n \in hist[i].bf)
+      /\ (hist[i].res = 1) => ~hist[i].fr
+      /\ (hist[i].n \notin Vocab) => hist[i].res = 0
+
+\* a compile fails exactly when it uses a name on the set's ban lists at that moment - other sets' lists are irrelevant
+CompileVerdict ==
+  \A i \in 1..Len(hist) :
+    hist[i].op = "Compile" =>
+      (hist[i].res = 0) <=> (hist[i].n[1] \cap hist[i].bt # {} \/ hist[i].n[2] \cap hist[i].bf # {})
 
 \* Liveness (checked under SpecCacheFair): every started operation completes.
 Fairness == \A t \in Threads : WF_vars(FcLock(t) \/ FcCrit(t) \/ FcUnlock(t) \/ CcLock(t) \/ CcCrit(t) \/ CcUnlock(t))
